@@ -115,9 +115,15 @@ pub fn build(prop: &str, seed: u64, hist: u64, rng: &mut Rng, ids: &[String]) ->
         "C15" => {
             profile = "rollback".into();
             fault_cfg = pick_faults(rng, HONEST_LOSSLESS, 1);
-            fault_cfg.insert("rollback".into(), 150);
             fault_cfg.insert("dup".into(), 250);
             fault_cfg.insert("stale".into(), 150);
+            if sub < 65 {
+                fault_cfg.insert("rollback".into(), 150);
+            } else {
+                // a sender that signs two different versions of its own results
+                profile = "equivocate".into();
+                fault_cfg.insert("equivocate".into(), 250);
+            }
         }
         "C21" => {
             profile = "version".into();
@@ -296,6 +302,12 @@ pub fn draw_forge(w: &World, rng: &mut Rng, mid: MsgId, from: usize, byz: Option
             if (rng.u32() % 1000) < *r {
                 return crate::byz::draw(w, rng, mid, from);
             }
+        }
+        return None;
+    }
+    if let Some(r) = cfg.get("equivocate") {
+        if (rng.u32() % 1000) < *r {
+            return Some(vec![ForgeOp::OwnRewrite { n: rng.u32() % 64 }]);
         }
         return None;
     }
